@@ -121,6 +121,12 @@ def depth_doc(k, n, quad_cap=3000):
         m = min(n, 5000)
         return r("<svg>" + "".join(f'<var w{i}="$w{i + 1}"/>' for i in range(m)) + f'<var w{m}="1"/>'
                  + '<rect wh="{{$w0 + 1}}"/><rect wh="1" data-v="$w0"/><if test="$w0"><rect wh="1"/></if></svg>')
+    if k == "var-tree":
+        # every variable is defined through the next one TWICE (nothing is substituted when it is
+        # assigned): evaluating the first one naively doubles the work at every level
+        m = min(n, 60)
+        return r("<svg>" + "".join(f'<var t{i}="$t{i + 1} + $t{i + 1}"/>' for i in range(m)) + f'<var t{m}="1"/>'
+                 + '<rect wh="{{$t0}}"/><if test="$t0"><rect wh="1"/></if></svg>')
     if k == "retry-siblings":
         # many failing containers side by side: none of them may keep the others retrying
         m = min(n, 400)
